@@ -296,7 +296,11 @@ func genOp(r *rand.Rand, p *runPlan) concOp {
 		}
 		return op
 	case x < 94:
-		return concOp{Kind: "Read", Read: r.Intn(10), Acct: r.Intn(nA)}
+		rd := r.Intn(13)
+		if rd >= 10 {
+			rd = 3 // TxPoolPending (what the block producer calls) is the most frequent reader
+		}
+		return concOp{Kind: "Read", Read: rd, Acct: r.Intn(nA)}
 	default:
 		if p.Qi {
 			if r.Intn(3) == 0 {
